@@ -596,25 +596,20 @@ let spec_check (know : int list) (s : sx) =
       (* value level, Map<K, Orswot>: op-based causal delivery without state transfer -- the member table under
          every key is the specification of the knowledge (theorems C05_mapor_values_refine / C01_mapor_converge of
          proofs/MapOrswot.v; T2 needs a merge, T3 leaves member tables alone: never attributed to a known finding) *)
-      (* EXPERIMENT (statement validation): Map<K, MVReg> without key removes, op-based (no merges), per-actor delivery:
-         the register under every key holds the causally maximal writes addressed to that key *)
+      (* Map<K, MVReg> without key removes, op-based (no merges), per-actor delivery: the register under every key holds the
+         causally maximal writes addressed to that key (C05_mapmv_values_refine_nk, C05_mapmv_vals_ok, C06_mapmv_stored_iff,
+         C01_mapmv_converge_nk, C08_mapmv_per_actor_equals_causal; proofs/MapMVRegNK.v); theorem-backed, never attributed to a
+         known finding (T1 needs a merge or a key remove) *)
       if !ty = "mapmv" && not !merges_seen && !all_per_actor
          && not (List.exists (fun (_, o, _) -> Known.is_rm o) !hist) then begin
-        let st = cmap_sx mv_inst s in
-        let keys = List.sort_uniq compare (List.filter_map (fun (_, o, _) -> match mop_sx mv_inst o with MUp (_, kk, _) -> Some (int_of_n kk) | _ -> None) !hist) in
-        let okv = List.for_all (fun kk ->
-          let h' = List.rev_map (fun (a, o, deps) ->
-            let put = (match mop_sx mv_inst o with
-                       | MUp (_, k', p) when int_of_n k' = kk -> p
-                       | _ -> MVPut (vc_of_list [], n_of_int 0)) in
-            mk_oprec (n_of_int a) put (List.map nat_of_int deps)) !hist in
-          let want = mvspec h' k in
-          let got = (match List.assoc_opt kk (List.map (fun (k', e) -> (int_of_n k', e)) (nmap_to_list st.mentries)) with
-                     | Some e -> e.eval | None -> []) in
-          mv_perm_eqb want got) keys in
+        let okv = mapmv_vals_ok (history_of (mop_sx mv_inst)) k (cmap_sx mv_inst s) in
         stat ("mapmvnk_" ^ (if okv then "ok" else "bad") ^ (if !all_causal then "" else "_pa"));
-        if not okv && (try Sys.getenv "VERIF_SHOW_M2" = "1" with Not_found -> false) then
-          Printf.printf "MVNKBAD case=%s cmd=%s\n" (fst !cur) (snd !cur)
+        let saved = !classes in
+        classes := [];
+        expect_all (["C05"; "C06"] @ (if !all_causal then ["C01"] else ["C08"]))
+          (fun () -> "Map<K,MVReg> without key removes and merges: the register under some key does not hold exactly the causally maximal writes addressed to that key") okv;
+        classes := saved;
+        emit_spec_case (fun () -> "Bool.eqb (mapmv_vals_ok " ^ coq_hist "(mop mvop)" (coq_mop coq_mvop) (mop_sx mv_inst) ^ " " ^ coq_know know ^ " (" ^ coq_cmap coq_mv (cmap_sx mv_inst s) ^ " : cmap (list (gmap N N * N)))) " ^ string_of_bool okv)
       end;
       (* Map<K, Orswot>, EVERY history outside the static classes of T2 (a key named by a key remove with two updates of one
          actor) and T3 (a key named by a key remove with an update carrying a nested remove): the complete state is
